@@ -49,7 +49,14 @@ func main() {
 	for _, e := range ex.Events {
 		switch e.Kind {
 		case absint.EvUnmodelled:
-			fmt.Printf("UNMODELLED %s @%s %s\n", e.Callee, rules.PosStr(prog, e.Pos), e.Msg)
+			a0 := ""
+			if len(e.Args) > 0 {
+				a0 = trunc(absint.ValString(e.Args[0]))
+				if p, ok := e.Args[0].(*absint.Ptr); ok && ex.Returns != nil {
+					_ = p
+				}
+			}
+			fmt.Printf("UNMODELLED %s @%s %s arg0=%s\n", e.Callee, rules.PosStr(prog, e.Pos), e.Msg, a0)
 		case absint.EvWiden:
 			fmt.Printf("WIDEN @%s %s\n", rules.PosStr(prog, e.Pos), e.Msg)
 		case absint.EvGlobalStore:
